@@ -157,7 +157,7 @@ func init() {
 	)
 	properties = append(properties,
 		propertySpec{ID: "C20", Harnesses: []harnessSpec{
-			h("cont.H_Modules", map[string]int{"order_schemes": 1}, map[string]int{"order_schemes": 2}, []string{"failed", "succeeded"}, 30, "three module-tree shapes (nesting depth 1..3, bare entries next to modules, nil entries) over four entries whose kinds are symbolic {valid add, keyed add, rejected add (nil constructor), duplicate add, nil, Remove[T], RemoveKeyed[T]}; a twin collection receives the flattened direct calls; verdicts, ModuleError chain (names outermost first, once per enclosing module), reachability of the cause, queries, Build verdict, constructor invocations and resolution classes compared"),
+			h("cont.H_Modules", map[string]int{"order_schemes": 1}, map[string]int{"order_schemes": 2}, []string{"failed", "succeeded"}, 30, "six module-tree shapes (nesting depth 1..3, bare entries next to modules, nil entries at both levels, a list of exactly one possibly-nil entry, one module with exactly one possibly-nil entry, the empty list) over four entries whose kinds are symbolic {valid add, keyed add, rejected add (nil constructor), duplicate add, nil, Remove[T], RemoveKeyed[T]}; a twin collection receives the flattened direct calls; verdicts, ModuleError chain (names outermost first, once per enclosing module), reachability of the cause, queries, Build verdict, constructor invocations and resolution classes compared"),
 		}},
 	)
 	webDesc := func(fw string) string {
